@@ -487,9 +487,9 @@ func init() {
 		Simulated:   []string{"module file system", "host-chosen execution order of import sites", "module body failures"},
 		Runs: func(tier string) int {
 			if tier == "thorough" {
-				return 200000
+				return 4000000
 			}
-			return 3000
+			return 50000
 		},
 		WallCap: func(tier string) float64 {
 			if tier == "thorough" {
